@@ -35,8 +35,8 @@ NONTRIVIAL_FLOOR = {"quick": 5000, "thorough": 50000}
 
 def _dom(tier):
     if tier == "thorough":
-        return dict(B=12, S=6, L=22, H=8)
-    return dict(B=7, S=4, L=10, H=6)
+        return dict(B=12, S=6, L=22, H=8, LF=10)
+    return dict(B=7, S=4, L=10, H=6, LF=7)
 
 
 def describe(tier):
@@ -84,7 +84,17 @@ def _forms(start, stop, step):
     return forms
 
 
-def check_slice_run(res, args, n):
+FALSY = [None, 0, False, "", (), 0.0]
+
+
+def _falsy_flow(n, shift):
+    """Bare values that are all falsy (None among them): nothing in a flow is an end marker."""
+    return [FALSY[(i + shift) % len(FALSY)] for i in range(n)]
+
+
+def check_slice_run(res, args, n, falsy_shift=None):
+    if falsy_shift is not None:
+        return _check_slice_run_falsy(res, args, n, falsy_shift)
     xs = _flow(n)
     expected = xs[slice(*args)]
     case = {"law": "slice-run", "args": list(args), "n": n}
@@ -100,6 +110,17 @@ def check_slice_run(res, args, n):
             if not _same(got2, ys[slice(*args)]):
                 ok = False
                 observed = {"second_run_over_%d_values" % (n + 1): [v[0] for v in got2]}
+            elif len(expected) >= 2:
+                # a run whose consumer stops after one value, then the same object over a new flow
+                el = lena.flow.Slice(*args)
+                g = el.run(iter(_flow(n)))
+                next(g)
+                zs = _flow(n)
+                got3 = list(el.run(iter(zs)))
+                if not _same(got3, zs[slice(*args)]):
+                    ok = False
+                    observed = {"run_after_abandoned_run": [v[0] for v in got3]}
+                del g
     except Exception as e:  # any exception is a difference from list slicing
         ok = False
         observed = "raised " + type(e).__name__
@@ -110,6 +131,25 @@ def check_slice_run(res, args, n):
         res.violation(case, observed, [v[0] for v in expected],
                       {"law": "slice-run", "start": _sign(s.start), "stop": _sign(s.stop),
                        "step_gt_1": bool(s.step and s.step > 1)})
+    return case
+
+
+def _check_slice_run_falsy(res, args, n, shift):
+    xs = _falsy_flow(n, shift)
+    expected = xs[slice(*args)]
+    case = {"law": "slice-run", "args": list(args), "n": n, "falsy_shift": shift}
+    try:
+        got = list(lena.flow.Slice(*args).run(iter(xs)))
+        ok = _same(got, expected)
+        observed = repr(got)
+    except Exception as e:
+        ok, observed = False, "raised " + type(e).__name__
+    s = slice(*args)
+    res.case(nontrivial=0 < len(expected) < n, outcome=("falsy", len(expected)))
+    if not ok:
+        res.violation(case, observed, repr(expected),
+                      {"law": "slice-run", "start": _sign(s.start), "stop": _sign(s.stop),
+                       "step_gt_1": bool(s.step and s.step > 1), "flow": "falsy values"})
     return case
 
 
@@ -187,9 +227,24 @@ def check_others(res, tier):
             if ok:      # the same object over a second flow
                 ys = _flow(n + 1)
                 ok = _same(list(rev.run(iter(ys))), list(reversed(ys)))
+            if ok and n >= 2:
+                # ... and after a run whose consumer stopped after one value (generator left alive)
+                rev = lena.flow.Reverse()
+                g = rev.run(iter(xs))
+                next(g)
+                ys = _flow(n + 1)
+                ok = _same(list(rev.run(iter(ys))), list(reversed(ys)))
+                if not ok:
+                    observed = "differs after an abandoned earlier run of the same object"
+                del g
             observed = [v[0] for v in got]
         except Exception as e:
             ok, observed = False, "raised " + type(e).__name__
+        if ok and n:
+            fs = _falsy_flow(n, n % len(FALSY))
+            ok = _same(list(lena.flow.Reverse().run(iter(fs))), list(reversed(fs)))
+            if not ok:
+                observed = "differs on a flow of falsy values"
         res.case(nontrivial=n > 1, outcome=("rev", n))
         res.sample(case, 1)
         if not ok:
@@ -302,6 +357,9 @@ def run_shard(p, tier):
                 for args in _forms(start, stop, step):
                     for n in range(d["L"] + 1):
                         case = check_slice_run(res, args, n)
+                        if 1 <= n <= d["LF"] and args == (start, stop, step):
+                            for shift in range(len(FALSY)):
+                                check_slice_run(res, args, n, falsy_shift=shift)
                 res.sample(case, 2)
     elif p["kind"] == "badstep":
         for start in rng:
@@ -327,7 +385,7 @@ def replay(case):
     res = Result()
     law = case.get("law")
     if law == "slice-run":
-        check_slice_run(res, tuple(case["args"]), case["n"])
+        check_slice_run(res, tuple(case["args"]), case["n"], case.get("falsy_shift"))
     elif law == "slice-badstep":
         check_bad_step(res, tuple(case["args"]))
     elif law == "slice-fill-into":
